@@ -35,11 +35,15 @@ VARIABLES inner,    \* [kind, wrap, canReport]
           alive,    \* the monitor goroutine is running
           errs,     \* errors delivered to OnWatchedError so far
           broken,   \* an un-reverse-translated value reached the monitor (anything may happen afterwards)
-          hist      \* the operations so far with the prediction after each
+          hist,     \* the operations so far with the prediction after each
+          lastStatic \* the non-watching source object most recently handed to SetSource: [set, wrap]
 
-vars == <<inner, slot, alive, errs, broken, hist>>
+vars == <<inner, slot, alive, errs, broken, hist, lastStatic>>
 
 IsBlank == Mode \in {"blank", "tblank"}
+\* a value with a = 13 stacks but fails Verify: it is rejected, the view keeps what it had, the caller of a blocking report gets
+\* the error and OnWatchedError is told
+Bad(v) == v.a = 13
 Unset == [a |-> 0, s |-> "unset"]
 Vals == {[a |-> a, s |-> s] : a \in AVals, s \in SVals}
 Vias == {"primary", "alias"}
@@ -53,10 +57,12 @@ Rec(op, v, w, via, flag, err, took) ==
 Init ==
   /\ inner = IF IsBlank THEN NoInner ELSE [kind |-> "watcher", wrap |-> CHOOSE w \in Wraps : TRUE, canReport |-> TRUE]
   /\ slot = Unset /\ alive = TRUE /\ errs = 0 /\ broken = FALSE /\ hist = <<>>
+  /\ lastStatic = [set |-> FALSE, wrap |-> "none"]
 
 \* "direct" mode: the wrap of the configured source is the first history entry
 Configure(w, v) ==
-  /\ Mode = "direct" /\ hist = <<>>
+  /\ Mode = "direct" /\ hist = <<>> /\ ~Bad(v)
+  /\ UNCHANGED lastStatic
   /\ inner' = [kind |-> "watcher", wrap |-> w, canReport |-> TRUE]
   /\ slot' = v /\ UNCHANGED <<alive, errs, broken>>
   /\ hist' = <<Rec("configure", v, w, "primary", FALSE, FALSE, TRUE)>>
@@ -70,64 +76,72 @@ PrevSet == hist # <<>> /\ hist[Len(hist)].op \in {"setstatic", "setwatcher"} /\ 
 OvlOK(o) == o => (Overlap /\ PrevSet)
 Ovl(r, o) == [r EXCEPT !.ovl = o]
 
+\* Blank.SetSource with a source of kind k ("static" | "watcher") whose Value() yields v
+SetCommon(opname, k, v, w, via, watchOK, o) ==
+  /\ UNCHANGED <<alive, broken>>
+  /\ IF inner.kind = "watcher" /\ ~BUG_ReplaceWatcher
+     THEN /\ UNCHANGED <<inner, slot, errs>>
+          /\ hist' = Append(hist, Ovl(Rec(opname, v, w, via, watchOK, TRUE, FALSE), o))
+     ELSE IF ~alive
+     THEN /\ inner' = [kind |-> k, wrap |-> w, canReport |-> FALSE]     \* inner is replaced before the report is attempted
+          /\ UNCHANGED <<slot, errs>>
+          /\ hist' = Append(hist, Ovl(Rec(opname, v, w, via, watchOK, TRUE, FALSE), o))
+     ELSE IF Bad(v)
+     THEN /\ inner' = [kind |-> k, wrap |-> w, canReport |-> FALSE]     \* the report fails: Watch is never called
+          /\ UNCHANGED slot /\ errs' = errs + 1
+          /\ hist' = Append(hist, Ovl(Rec(opname, v, w, via, watchOK, TRUE, FALSE), o))
+     ELSE /\ inner' = [kind |-> k, wrap |-> w, canReport |-> (k = "watcher" /\ watchOK)]
+          /\ slot' = v /\ UNCHANGED errs                            \* the value is reported before Watch is called
+          /\ hist' = Append(hist, Ovl(Rec(opname, v, w, via, watchOK, k = "watcher" /\ ~watchOK, TRUE), o))
+
 SetStatic(v, w, via, o) ==          \* Blank.SetSource(non-watching source)
   /\ IsBlank /\ ViaOK(w, v, via) /\ OvlOK(o)
-  /\ UNCHANGED <<alive, errs, broken>>
-  /\ IF inner.kind = "watcher" /\ ~BUG_ReplaceWatcher
-     THEN /\ UNCHANGED <<inner, slot>>
-          /\ hist' = Append(hist, Ovl(Rec("setstatic", v, w, via, FALSE, TRUE, FALSE), o))
-     ELSE IF ~alive
-     THEN /\ inner' = [kind |-> "static", wrap |-> w, canReport |-> FALSE]     \* inner is replaced before the report is attempted
-          /\ UNCHANGED slot
-          /\ hist' = Append(hist, Ovl(Rec("setstatic", v, w, via, FALSE, TRUE, FALSE), o))
-     ELSE /\ inner' = [kind |-> "static", wrap |-> w, canReport |-> FALSE]
-          /\ slot' = v
-          /\ hist' = Append(hist, Ovl(Rec("setstatic", v, w, via, FALSE, FALSE, TRUE), o))
+  /\ lastStatic' = [set |-> TRUE, wrap |-> w]
+  /\ SetCommon("setstatic", "static", v, w, via, FALSE, o)
+
+\* the very same (non-watching) source object is handed to SetSource once more, after its data changed to v: a retry
+SetAgain(v) ==
+  /\ IsBlank /\ lastStatic.set /\ ViaOK(lastStatic.wrap, v, "primary")
+  /\ UNCHANGED lastStatic
+  /\ SetCommon("setagain", "static", v, lastStatic.wrap, "primary", FALSE, FALSE)
 
 SetFailing ==                    \* the new source's Value fails: error, nothing changes
   /\ IsBlank
-  /\ UNCHANGED <<inner, slot, alive, errs, broken>>
+  /\ UNCHANGED <<inner, slot, alive, errs, broken, lastStatic>>
   /\ hist' = Append(hist, Rec("setfailing", Unset, "none", "primary", FALSE, TRUE, FALSE))
 
 SetWatcher(v, w, via, watchOK, o) ==   \* Blank.SetSource(watching source)
   /\ IsBlank /\ ViaOK(w, v, via) /\ OvlOK(o)
-  /\ UNCHANGED <<alive, errs, broken>>
-  /\ IF inner.kind = "watcher" /\ ~BUG_ReplaceWatcher
-     THEN /\ UNCHANGED <<inner, slot>>
-          /\ hist' = Append(hist, Ovl(Rec("setwatcher", v, w, via, watchOK, TRUE, FALSE), o))
-     ELSE IF ~alive
-     THEN /\ inner' = [kind |-> "watcher", wrap |-> w, canReport |-> FALSE]
-          /\ UNCHANGED slot
-          /\ hist' = Append(hist, Ovl(Rec("setwatcher", v, w, via, watchOK, TRUE, FALSE), o))
-     ELSE /\ inner' = [kind |-> "watcher", wrap |-> w, canReport |-> watchOK]
-          /\ slot' = v                                      \* the value is reported before Watch is called
-          /\ hist' = Append(hist, Ovl(Rec("setwatcher", v, w, via, watchOK, ~watchOK, TRUE), o))
+  /\ UNCHANGED lastStatic
+  /\ SetCommon("setwatcher", "watcher", v, w, via, watchOK, o)
 
 InnerReport(v, via, blocking) == \* the watching inner source reports an update through the args it was given
   /\ Started /\ inner.kind = "watcher" /\ inner.canReport /\ alive /\ ~broken
   /\ ViaOK(inner.wrap, v, via)
   /\ IF BUG_NoReverse /\ inner.wrap # "none"
-     THEN broken' = TRUE /\ UNCHANGED slot
-     ELSE slot' = v /\ UNCHANGED broken
-  /\ UNCHANGED <<inner, alive, errs>>
-  /\ hist' = Append(hist, Rec(IF blocking THEN "reportblocking" ELSE "report", v, inner.wrap, via, FALSE, FALSE, ~broken'))
+     THEN broken' = TRUE /\ UNCHANGED <<slot, errs>>
+     ELSE IF Bad(v) THEN UNCHANGED <<slot, broken>> /\ errs' = errs + 1
+     ELSE slot' = v /\ UNCHANGED <<broken, errs>>
+  /\ UNCHANGED <<inner, alive, lastStatic>>
+  /\ hist' = Append(hist, Rec(IF blocking THEN "reportblocking" ELSE "report", v, inner.wrap, via, FALSE,
+                               blocking /\ Bad(v) /\ ~broken', ~broken' /\ ~Bad(v)))
 
 InnerError ==                    \* the watching inner source reports an error: it must reach OnWatchedError
   /\ Started /\ inner.kind = "watcher" /\ inner.canReport /\ alive /\ ~broken
   /\ errs' = errs + 1
-  /\ UNCHANGED <<inner, slot, alive, broken>>
+  /\ UNCHANGED <<inner, slot, alive, broken, lastStatic>>
   /\ hist' = Append(hist, Rec("reporterror", Unset, inner.wrap, "primary", FALSE, FALSE, FALSE))
 
 InnerDone ==                     \* the watching inner source is finished: the monitor exits (single watching slot)
   /\ Started /\ inner.kind = "watcher" /\ inner.canReport /\ alive /\ ~broken
   /\ alive' = FALSE
-  /\ UNCHANGED <<inner, slot, errs, broken>>
+  /\ UNCHANGED <<inner, slot, errs, broken, lastStatic>>
   /\ hist' = Append(hist, Rec("innerdone", Unset, inner.wrap, "primary", FALSE, FALSE, FALSE))
 
 BlankDone ==                     \* Blank.Done: forwarded only while the Blank still owns the slot
   /\ IsBlank
   /\ alive' = IF inner.kind = "watcher" THEN alive ELSE FALSE
-  /\ UNCHANGED <<inner, slot, errs, broken>>
+  /\ UNCHANGED <<inner, slot, errs, broken, lastStatic>>
   /\ hist' = Append(hist, Rec("blankdone", Unset, "none", "primary", FALSE, FALSE, FALSE))
 
 Next ==
@@ -135,6 +149,7 @@ Next ==
   /\ \/ \E w \in Wraps, v \in Vals : Configure(w, v)
      \/ \E v \in Vals, w \in Wraps, via \in Vias, o \in BOOLEAN : SetStatic(v, w, via, o)
      \/ SetFailing
+     \/ \E v \in Vals : SetAgain(v)
      \/ \E v \in Vals, w \in Wraps, via \in Vias, ok \in BOOLEAN, o \in BOOLEAN : SetWatcher(v, w, via, ok, o)
      \/ \E v \in Vals, via \in Vias, b \in BOOLEAN : InnerReport(v, via, b)
      \/ InnerError \/ InnerDone \/ BlankDone
@@ -147,7 +162,7 @@ Transparent == ~broken
 \* Blank refuses to replace a watching inner source
 LastOp == hist[Len(hist)]
 RefuseReplaceWatcher ==
-  [][(inner.kind = "watcher" /\ Len(hist') > Len(hist) /\ hist'[Len(hist')].op \in {"setstatic", "setwatcher"})
+  [][(inner.kind = "watcher" /\ Len(hist') > Len(hist) /\ hist'[Len(hist')].op \in {"setstatic", "setwatcher", "setagain"})
         => (inner' = inner /\ slot' = slot /\ hist'[Len(hist')].err)]_vars
 \* Done is forwarded only while the Blank owns the slot
 DoneOnlyIfOwner ==
